@@ -327,6 +327,16 @@ class World:
         if op == "rename" and Wpre:
             win.dirmoves.append((s, a[0], a[1]))
 
+    def touch(self, s, p):
+        """A user op that changes an object without changing the tree modulo case (case-only rename on a
+        case-insensitive provider): counts as a write-like touch of p."""
+        win = self.win
+        win.W[s].add(p)
+        win.R[s].update(ancestors(p))
+        win.nops[s] += 1
+        win.dirty.add(p)
+        win.dirty_side[s].add(p)
+
     def apply_gadget_op(self, s, op, *a):
         """Conflict-gadget op: applied to that side's tree only; every path it touches is retired
         (never touched again), so the merged outcome need not be modelled."""
